@@ -49,6 +49,7 @@ func genAuthFacts(repo string) (string, error) {
 	}
 	for _, file := range []string{"auth.go", "challenge.go"} {
 		f, err := parser.ParseFile(fset, filepath.Join(dir, file), nil, 0)
+		normalizeFile(f)
 		if err != nil {
 			return "", err
 		}
